@@ -1384,6 +1384,69 @@ def canon_e2e(o):
     return o
 
 
+SUBST_NAMES = ["vehicle", "building", "Animal", "item", "Zeta", "alpha", "b", "a"]
+
+
+def make_subst_schema(rng, n_ns=1):
+    """Substitution groups whose *heads* are referenced from xs:choice / xs:sequence particles:
+    2-4 heads (simple or complex typed, sometimes abstract), 1-3 members each, a root type whose
+    choice refers to 2-4 different heads (all refs substituted -> the compound field may be named
+    after the groups), optionally mixed with a plain element or a second choice."""
+    heads = rng.sample(SUBST_NAMES, rng.randint(2, 4))
+    tns = "urn:sg"
+    body = []
+    if rng.random() < 0.5:
+        body.append('<xs:complexType name="Base"><xs:sequence><xs:element name="v" type="xs:string" minOccurs="0"/></xs:sequence></xs:complexType>')
+        ctype = "sg:Base"
+    else:
+        ctype = None
+    for h in heads:
+        t = ctype if ctype and rng.random() < 0.4 else rng.choice(["xs:string", "xs:int", "xs:date"])
+        abstract = ' abstract="true"' if rng.random() < 0.2 else ""
+        body.append(f'<xs:element name="{h}" type="{t}"{abstract}/>')
+        for k in range(rng.randint(1, 3)):
+            body.append(f'<xs:element name="{h}M{k}" type="{t}" substitutionGroup="sg:{h}"/>')
+
+    def choice(refs, extra):
+        mx = rng.choice(["1", "unbounded", "3"])
+        parts = [f'<xs:element ref="sg:{r}"/>' for r in refs]
+        if extra:
+            parts.insert(rng.randrange(len(parts) + 1), '<xs:element name="plain" type="xs:string"/>')
+        return f'<xs:choice maxOccurs="{mx}">' + "".join(parts) + "</xs:choice>"
+
+    refs = rng.sample(heads, rng.randint(2, len(heads)))
+    inner = choice(refs, rng.random() < 0.25)
+    if rng.random() < 0.3:
+        inner = "<xs:sequence>" + inner + choice(rng.sample(heads, 2), False) + "</xs:sequence>"
+    elif rng.random() < 0.3:
+        inner = '<xs:sequence maxOccurs="unbounded">' + "".join(f'<xs:element ref="sg:{r}"/>' for r in refs) + "</xs:sequence>"
+    body.append(f'<xs:element name="root"><xs:complexType>{inner}</xs:complexType></xs:element>')
+    text = (
+        f'<xs:schema xmlns:xs="{XS}" xmlns:sg="{tns}" targetNamespace="{tns}" elementFormDefault="qualified">'
+        + "".join(body)
+        + "</xs:schema>"
+    )
+    return {"sg.xsd": text}
+
+
+def compound_options(rng, style=None):
+    """compound fields with the options that have no command line flag (project file / API only)"""
+    o = {"structure_style": style or rng.choice(E2E_STYLES), "package": rng.choice(["gen", "gen.out"]),
+         "compound_fields__enabled": True}
+    if rng.random() < 0.75:
+        o["compound_fields__use_substitution_groups"] = True
+    r = rng.random()
+    if r < 0.2:
+        o["compound_fields__force_default_name"] = True
+    elif r < 0.45:
+        o["compound_fields__max_name_parts"] = rng.choice([1, 2, 4])
+    if rng.random() < 0.25:
+        o["compound_fields__default_name"] = rng.choice(["choice", "value", "any_of"])
+    if rng.random() < 0.3:
+        o["unnest_classes"] = True
+    return o
+
+
 def gen_e2e(rng, tier):
     n = 24 if tier == "quick" else 800
     k = 0
@@ -1393,6 +1456,9 @@ def gen_e2e(rng, tier):
         if k == 0:
             # a base class that is looked up while it is being finalised (fixed C12-F1)
             schemas, options = SEQLEAK_SCHEMA, dict(SEQLEAK_OPTIONS, structure_style="clusters")
+        elif k % 4 == 1:
+            # substitution group heads in choices, compound fields with the file-only options
+            schemas, options = make_subst_schema(rng), compound_options(rng)
         else:
             schemas = make_schema_set(rng)
             options = e2e_options(rng)
@@ -2199,6 +2265,9 @@ def gen_oracle_e2e(rng, tier):
     for style in ("single-package", "filenames", "clusters"):
         yield {"schemas": URI_ORDER_SCHEMAS, "options": {"structure_style": style, "package": "gen"}}
     yield {"schemas": OVERRIDE_ORDER_SCHEMAS, "options": {"structure_style": "namespaces", "package": "gen"}}
+    # compound fields named after substitution groups (options without a command line flag)
+    for _k in range(4 if tier == "quick" else 60):
+        yield {"schemas": make_subst_schema(rng), "options": compound_options(rng, rng.choice(["single-package", "filenames", "clusters"]))}
     for i in range(12 if tier == "quick" else 300):
         # several files more often than not: most axes only bite there
         schemas = make_schema_set(rng, n_ns=rng.choice([0, 1, 2, 3, 2, 3]))
